@@ -1434,3 +1434,103 @@ Proof.
   - intros H v Hv. apply (proj1 (vmask_true o I' v) (H v Hv)).
   - intros H v Hv. apply vmask_true. split; [|apply H; exact Hv]. rewrite Forall_forall in Wc. apply Wc. exact Hv.
 Qed.
+
+(* ================================================================== histories without per-element text data *)
+Definition no_text_kids (o : obj) : Prop := Forall (fun k => kkind k <> KText) (kids o).
+
+(* what remains to be asked of an operation when no text data are involved: masks of a copy are a vertex mask or a cell
+   mask (none on Points), and the operation does not add text data *)
+Definition op_plain (o : obj) (p : op) : Prop :=
+  match p with
+  | MaskedCopy vm cm => (vm = None \/ cm = None) /\ (ok o = OPoints -> cm = None)
+  | AddData _ _ k _ => k <> KText
+  | _ => True
+  end.
+
+Lemma no_text_free a o : no_text_kids o -> text_free a (kids o).
+Proof. intros H k Hin _. unfold no_text_kids in H. rewrite Forall_forall in H. apply H. exact Hin. Qed.
+
+Lemma plain_args_ok o p : no_text_kids o -> op_plain o p -> copy_args_ok o p.
+Proof.
+  intros HT HP. destruct p as [ix|ix|id v|id a k v|vm cm|order]; simpl in *; auto.
+  - left. split; apply no_text_free; exact HT.
+  - left. apply no_text_free; exact HT.
+  - intros k Hin _ Hk. unfold no_text_kids in HT. rewrite Forall_forall in HT. exfalso. apply (HT k Hin Hk).
+  - intros vv _ Hk. contradiction.
+Qed.
+
+Lemma sel_kids_no_text vm cm ks ks' : Forall2 (sel_kid vm cm) ks ks' ->
+  Forall (fun k => kkind k <> KText) ks -> Forall (fun k => kkind k <> KText) ks'.
+Proof.
+  intros H. induction H as [|k k' r r' Hk H IH]; intros HT; constructor; inversion HT; subst.
+  - destruct Hk as (_ & _ & E & _). congruence.
+  - apply IH. assumption.
+Qed.
+
+Lemma rcv_kids_no_text m a ks ks' : Forall2 (rcv_kid m a) ks ks' ->
+  Forall (fun k => kkind k <> KText) ks -> Forall (fun k => kkind k <> KText) ks'.
+Proof.
+  intros H. induction H as [|k k' r r' Hk H IH]; intros HT; constructor; inversion HT; subst.
+  - destruct Hk as (_ & _ & E & _). congruence.
+  - apply IH. assumption.
+Qed.
+
+Lemma step_no_text o p : wf o -> no_text_kids o -> op_plain o p -> no_text_kids (step_state repaired o p).
+Proof.
+  intros W HT HP. pose proof (plain_args_ok o p HT HP) as HC. pose proof (op_safe_repaired o p HC) as HS.
+  unfold step_state. destruct (step repaired o p) as [[o'|e o']|] eqn:S; simpl; [| |exact HT].
+  - (* Done *)
+    destruct p as [ix|ix|id v|id a k v|vm cm|order]; simpl in S.
+    + injection S as S. destruct (remove_vertices_done repaired o ix o' W S) as [I' [_ (_ & _ & _ & _ & _ & _ & HK)]].
+      eapply sel_kids_no_text; eauto.
+    + injection S as S. destruct (ok o) eqn:Ek; [discriminate| |];
+        destruct (remove_cells_done repaired o ix o' (wf_kids_len_c o W) S) as [I' [_ (_ & _ & _ & HK)]];
+        eapply rcv_kids_no_text; eauto.
+    + injection S as S. unfold set_values in S.
+      destruct (update_kid _ _ _) as [[ks|e0]|] eqn:U; try discriminate. injection S as <-. simpl.
+      eapply update_kid_Forall; [|exact U|exact HT].
+      intros k0 k0' _ _ Hk. cbv beta. destruct (format_length _ _ _ v) as [v'|]; [|discriminate].
+      intros E; injection E as <-. exact Hk.
+    + assert (G : Some (add_data o id a k v) = Some (Done o') -> no_text_kids o').
+      { intros E; injection E as E. unfold add_data in E. simpl in HP.
+        destruct v as [v|]; [destruct (format_length _ _ _ v); [|discriminate]|]; injection E as <-;
+          unfold no_text_kids; simpl; apply Forall_app; (split; [exact HT|constructor; [exact HP|constructor]]). }
+      destruct (ok o); destruct a; try discriminate; apply G; exact S.
+    + injection S as S. simpl in HP. destruct HP as [H1 H2].
+      pose proof (masked_copy_done repaired o vm cm o' W H1 H2 S) as (_ & _ & _ & _ & _ & _ & HK).
+      eapply sel_kids_no_text; eauto.
+    + destruct (reopen o order) as [o1|] eqn:R; [|discriminate]. injection S as <-.
+      unfold reopen in R. destruct (reorder order (kids o)) as [ks|] eqn:RR; [|discriminate]. injection R as <-.
+      unfold no_text_kids. simpl. eapply reorder_Forall; eauto.
+  - (* Failed *)
+    destruct p as [ix|ix|id v|id a k v|vm cm|order]; simpl in S.
+    + injection S as S. simpl in HS. destruct HS as (H1 & H2 & H3).
+      apply remove_vertices_failed in S; auto. subst. exact HT.
+    + injection S as S. simpl in HS. destruct HS as [H1 H3]. destruct (ok o) eqn:Ek.
+      * injection S as _ <-. exact HT.
+      * apply remove_cells_failed in S; auto; [subst; exact HT|apply wf_kids_len_c; exact W].
+      * apply remove_cells_failed in S; auto; [subst; exact HT|apply wf_kids_len_c; exact W].
+    + injection S as S. apply set_values_failed in S. subst. exact HT.
+    + assert (G : Some (add_data o id a k v) = Some (Failed e o') -> no_text_kids o').
+      { intros E; injection E as E. unfold add_data in E. simpl in HP.
+        destruct v as [v|]; [destruct (format_length _ _ _ v); [discriminate|]|discriminate]. injection E as _ <-.
+        unfold no_text_kids; simpl; apply Forall_app; (split; [exact HT|constructor; [exact HP|constructor]]). }
+      destruct (ok o); destruct a; try discriminate; apply G; exact S.
+    + injection S as S. apply masked_copy_failed in S. subst. exact HT.
+    + destruct (reopen o order); discriminate.
+Qed.
+
+Fixpoint plain_ok (o : obj) (ops : list op) : Prop :=
+  match ops with
+  | [] => True
+  | p :: r => op_plain o p /\ plain_ok (step_state repaired o p) r
+  end.
+
+(* consistency is an invariant of every history that involves no per-element text data *)
+Lemma run_wf_repaired_no_text : forall ops o, wf o -> no_text_kids o -> plain_ok o ops ->
+  wf (run repaired o ops) /\ no_text_kids (run repaired o ops).
+Proof.
+  induction ops as [|p r IH]; intros o W HT H; simpl in *; [auto|].
+  destruct H as [H1 H2]. apply IH; [|apply step_no_text; assumption|exact H2].
+  apply step_wf; [exact W|]. apply op_safe_repaired. apply plain_args_ok; assumption.
+Qed.
